@@ -55,7 +55,10 @@ def create_union(args: tuple):
 
 
 def is_parametrized(tp: TypeHint) -> bool:
-    return bool(get_generic_args(tp))
+    if get_generic_args(tp):
+        return True
+    # ``Tuple[()]`` is a parametrized tuple (the empty one) although it has no generic args
+    return strip_alias(tp) is tuple and tp is not tuple and tp is not typing.Tuple
 
 
 if HAS_PY_312:
